@@ -50,6 +50,8 @@ Lemma oc_cache_created k id o : only_caches (cache_created cfg k id o).
 Proof. unfold cache_created. oc; try apply oc_ensure_factory; try apply oc_cull_tick. Qed.
 Lemma oc_cache_expire k id : only_caches (cache_expire cfg k id).
 Proof. unfold cache_expire. oc. Qed.
+Lemma oc_cache_purge k id : only_caches (cache_purge k id).
+Proof. unfold cache_purge. oc. Qed.
 Lemma oc_cache_try_get k id roots : only_caches (cache_try_get cfg k id roots).
 Proof. unfold cache_try_get. oc. Qed.
 End WithConfig2.
